@@ -94,3 +94,24 @@ Theorem C02_builtin_samplers_aligned :
               draws agent_actions plan ops s0).
 Proof. intros. eapply reachable_aligned; [|eassumption]. intros. now apply builtin_propose_len. Qed.
 Print Assumptions C02_builtin_samplers_aligned.
+
+(* Round 4 - "with the configured simulation length": when the model is given its length explicitly and the calibrator fixes it
+   at construction as  N = sim_length if given, else the number of rows of the real data  (calibrator.py:106-116, 344-354), then
+   in every reachable state every recorded row holds exactly E series, each of N periods - for any model answering with as many
+   periods as it is asked for. *)
+From BlackIt Require Import Model.SimLen Proofs.CalibSimLenP.
+Theorem C02_series_have_configured_length :
+  forall Param Series LossV (modelN : Param -> nat -> Z -> Series) (periods : Series -> nat),
+  (forall p n seed, periods (modelN p n seed) = n) ->
+  forall lossf draws sim_length real_rows loss_leb rounds0 propose agent_actions plan,
+  (forall s ps ls, length (propose s ps ls) = s_bsize s) ->
+  forall cfg0 samplers scheduler s0 ops,
+    construct Param Series LossV cfg0 samplers scheduler = inl s0 ->
+    Forall (fun row => length row = c_E cfg0 /\ Forall (fun x => periods x = sim_len sim_length real_rows) row)
+      (series _ _ _ (live _ _ _
+         (run Param Series LossV (model_at modelN sim_length real_rows) lossf loss_leb rounds0 propose draws agent_actions plan ops s0))).
+Proof. exact series_have_configured_length. Qed.
+Print Assumptions C02_series_have_configured_length.
+
+Example C02_sim_len_default : sim_len None 24 = 24.  Proof. reflexivity. Qed.
+Example C02_sim_len_given : sim_len (Some 7) 24 = 7. Proof. reflexivity. Qed.
